@@ -130,7 +130,7 @@ func mkCheck(col *ev.Collector) func(Case) error {
 		if len(c.Edits) > 0 || c.Perm != 0 || len(c.Twins) > 0 || c.Short != 0 || c.TwoSchemas > 1 {
 			col.NonTrivial(fmt.Sprintf("%s|%s|%s|%v|%s|%d|%s|%d", c.Dialect, c.Level, strings.Join(ks, ","), c.Perm != 0, strings.Join(tws, ","), c.Short, c.Flavour, c.TwoSchemas))
 			if c.Flavour != "" {
-				col.Class("mysql/flavour=" + c.Flavour)
+				col.Class(c.Dialect + "/flavour=" + c.Flavour)
 			}
 		}
 		sk := fmt.Sprintf("%s/%d-edits", c.Dialect, min(len(c.Edits), 3))
@@ -173,6 +173,25 @@ func TestCheck(t *testing.T) {
 						continue // refused by contract on these servers
 					}
 					if !ev.Each(col, "flavours-single-edit", Case{Dialect: d, Base: fbase, Level: "schema", Edits: []EditRef{s.E}, Flavour: fl}, check, known) {
+						return
+					}
+				}
+			}
+		}
+		if d == "postgres" {
+			// the differs of drivers opened against PostgreSQL 15 / 10 (every single edit) and CockroachDB (null relations only:
+			// its differ deliberately equates the integer types and adds a rowid key)
+			for _, fl := range []string{"pg15", "pg10", "crdb"} {
+				for _, perm := range []int64{0, 1} {
+					if !ev.Each(col, "flavours-single-edit", Case{Dialect: d, Base: base, Level: "schema", Perm: perm, Flavour: fl}, check, known) {
+						return
+					}
+				}
+				if fl == "crdb" {
+					continue
+				}
+				for _, s := range AllSites(d, base) {
+					if !ev.Each(col, "flavours-single-edit", Case{Dialect: d, Base: base, Level: "schema", Edits: []EditRef{s.E}, Flavour: fl}, check, known) {
 						return
 					}
 				}
